@@ -118,3 +118,21 @@ Fixpoint dict_norm {A} (s : list (string * A)) : list (string * A) :=
   | [] => []
   | (k, v) :: s' => (k, v) :: remove_key k (dict_norm s')
   end.
+
+(* induction principle for compiled trees that reaches into the children *)
+Section CtreeInd.
+  Variable D : Type.
+  Variable P : ctree D -> Prop.
+  Hypothesis H : forall n ty ins sp ports res conns rep cstrs kids,
+      Forall P kids -> P (CT n ty ins sp ports res conns rep cstrs kids).
+  Fixpoint ctree_ind' (t : ctree D) : P t :=
+    match t with
+    | CT n ty ins sp ports res conns rep cstrs kids =>
+        H n ty ins sp ports res conns rep cstrs kids
+          ((fix go (l : list (ctree D)) : Forall P l :=
+              match l with
+              | [] => Forall_nil _
+              | k :: l' => Forall_cons _ (ctree_ind' k) (go l')
+              end) kids)
+    end.
+End CtreeInd.
